@@ -709,8 +709,11 @@ def remap_by_types(
             # Next, we'll do type resolution here
             best_result = return_results[-1]
             if best_result.obj_info is not None:
+                # The callbacks are those of the class the call is written against (the first
+                # class that has the method), also when a collection class provided the typing.
+                cb_info = base_obj_list[0]
                 best_result.node = self.process_method_callbacks(
-                    best_result.obj_info.obj_type, best_result.node, best_result.obj_info.method
+                    cb_info.obj_type, best_result.node, cb_info.method
                 )
 
             # We'll pick off the first one in this case.
